@@ -61,7 +61,7 @@ CHECKS = {
         'level_note': 'Trusts CPython asyncio Task/Future cancellation semantics on the custom loop; prometheus is a '
                       'no-op fake whose time(metric, fut) awaits fut like the real one; num_slots <= 4, <= 6 keys, '
                       '<= 8 actors x <= 7 lookups, lifetimes are even multiples of 1/1024 s.',
-        'scenarios': [{'module': 'worlds.prims.tlcache', 'quick': 40000, 'thorough': 800000}],
+        'scenarios': [{'module': 'worlds.prims.tlcache', 'quick': 80000, 'thorough': 1600000}],
         'expected_probes': ['hit', 'joined_inflight_load', 'load_failed', 'joined_load_failed', 'eviction',
                             'expired_entry_reloaded', 'probe_pass_full', 'cancel_first_looker',
                             'cancel_first_looker_with_joiners', 'cancel_joiner', 'hit_one_tick_before_expiry'],
